@@ -201,7 +201,8 @@ def check_simple(case, stats):
 
 def check_macro(case, stats):
     viols = []
-    defines = ["KB 0.35 1250", "ANG 120.0", "FLEX"]
+    # KB and ANG are defined twice (a force-field value, then the user's override): as for cpp the last definition counts
+    defines = ["KB 0.10 9999", "ANG 90.0", "KB 0.35 1250", "ANG 120.0", "FLEX"]
     bonds = ["1 2 1 KB"] if case["macro"] == "whole" else ["1 2 1 0.47 1250"]
     angles = ["1 2 3 2 ANG 25.0"]
     types = {}
